@@ -41,6 +41,7 @@ def src(p, top=True):
     if k == 'lam': return '(\\' + ', '.join(n if d is None else f'{n} = {S(d)}' for n, d in p[1]) + f' -> {S(p[2])})'
     if k == 'call': return f'{S(p[1])}(' + ', '.join(S(q) for q in p[2]) + ')'
     if k == 'try': return f'(try {S(p[1])} catch {p[2]} -> {S(p[3])})'
+    if k == 'trylit': return f'(try {S(p[1])} catch {p[2]} -> {S(p[3])})'          # a literal pattern in the catch clause
     if k == 'throw': return f'(throw {S(p[1])})'
     if k in ('and', 'or', 'coalesce'): return f'({S(p[1])} {k} {S(p[2])})'
     if k == 'print': return f'print({S(p[1])})'
@@ -178,6 +179,13 @@ class Ref:
                 cs = Scope(sc)                                 # a fresh scope per catch clause
                 cs.vars[p[2]] = [e.val if e.kind == 'throw' else ('errmsg',)]
                 return s.ev(p[3], cs)
+        if k == 'trylit':
+            # a catch clause whose pattern refuses the thrown value does not handle it: the original value keeps propagating
+            try: return s.ev(p[1], sc)
+            except RErr as e:
+                if e.kind == 'fuel': raise
+                if e.kind == 'throw' and z3.is_expr(e.val) and s.choose(e.val == p[2]): return s.ev(p[3], Scope(sc))
+                raise
         if k == 'throw': raise RErr('throw', s.ev(p[1], sc))
         if k == 'and':
             a = s.ev(p[1], sc); return s.ev(p[2], sc) if s.truthy(a) else a
@@ -330,6 +338,11 @@ def family():
           SEQ(('decl', 'e', N(7)), ('try', ('throw', N(1)), 'e', N(0)), V('e')),
           SEQ(('decl', 'a', N(0)), ('for', 'i', L123, ('try', SEQ(('if', B('==', i, V('x')), ('throw', i), None), ('opset', 'a', '+', i)), 'e', ('opset', 'a', '+', N(100)))), a),
           ('for', 'i', L123, ('try', ('if', B('==', i, V('x')), ('break', 0, N(42)), None), 'e', N(0)))]
+    # a catch pattern that refuses the thrown value lets the original value propagate to the enclosing handler
+    P += [('try', ('trylit', ('throw', V('x')), 5, N(100)), 'e', B('+', V('e'), N(1))),
+          ('try', ('trylit', ('throw', V('x')), 5, ('trylit', ('throw', V('y')), 6, N(200))), 'e', B('*', V('e'), N(2))),
+          SEQ(('decl', 'f', LAM(['k'], ('trylit', ('throw', V('k')), 0, N(-1)))), ('try', ('call', f, [V('x')]), 'e', B('+', V('e'), N(10)))),
+          ('trylit', ('throw', V('x')), 5, N(100))]
     # printed output order
     P += [SEQ(('print', V('x')), ('print', V('y')), N(0)), SEQ(('for', 'i', Lxy, ('if', B('>', i, N(0)), ('print', i), None)), N(0)),
           SEQ(('or', ('print', N(1)), ('print', N(2))), ('and', ('print', N(3)), ('print', N(4))), N(0))]
